@@ -116,7 +116,7 @@ def cases(draw):
     reqs = []
     for _ in range(draw(st.integers(1, 3))):
         r = draw(GD.requests(eff, null_hazards=("argument",)))
-        r["world"] = {"salt": draw(st.integers(0, 10 ** 6)), "p_err": draw(st.sampled_from([0, 5, 11, 11])),
+        r["world"] = {"salt": draw(st.integers(0, 10 ** 6)), "p_err": draw(st.sampled_from([0, 5, 11, 11, 6])),
                       "p_null": draw(st.sampled_from([0, 4, 7, 7])), "p_null_item": draw(st.sampled_from([0, 3, 6]))}
         reqs.append(r)
     runs = [(draw(st.integers(0, len(reqs) - 1)), draw(st.sampled_from(ENTRIES))) for _ in range(draw(st.integers(len(reqs), 8)))]
